@@ -243,7 +243,11 @@ func (w *world) pairStep(s sim.Step) {
 			if rule == "topic" && !deliverable[topics[k]] {
 				continue
 			}
-			w.d.Finding("accept-implies-rules", rule+"/"+kind+"/concurrent", "%s accepted although it breaks rule %q (both of a concurrently validated pair were accepted: [%s | %s]); slot=+%d", srcs[k], rule, acts[0].verdict, acts[1].verdict, int64(w.curSlot())-int64(w.slot0))
+			sig := rule + "/" + kind
+			if strings.HasPrefix(rule, "history-") { // the per-signer rules are the ones a race can break
+				sig += "/concurrent"
+			}
+			w.d.Finding("accept-implies-rules", sig, "%s accepted although it breaks rule %q (both of a concurrently validated pair were accepted: [%s | %s]); slot=+%d", srcs[k], rule, acts[0].verdict, acts[1].verdict, int64(w.curSlot())-int64(w.slot0))
 		}
 		w.ref.record(p)
 	}
